@@ -1083,6 +1083,8 @@ def population_kind(o):
         return "update"
     if d.get("_delete_from"):
         return "delete"
+    if d.get("_returns"):
+        return None  # returning() on a SELECT (the PostgreSQL builder allows the call): no order table applies
     return "select"
 
 
